@@ -6,6 +6,10 @@
 //! (or all record one constant, e.g. the -1.0 "no timing" sentinel); a probe (m, avg) must satisfy m <= avg <= 2T-m with T the
 //! tickets issued when the probe returned; the final count must equal the number of `inc` calls and the final average the
 //! arithmetic mean. A reader thread checks that the count never decreases.
+//! "Count origin" (1 run in 3): before any thread starts, the metric's 64-bit cell is preset to (c0, a0) -- as if c0 measurements of mean a0 had
+//! been recorded before -- with c0 next to 2^24 (where an f32 can no longer represent count + 1), next to 2^31, next to (but below) the documented
+//! u32::MAX reset, or anywhere; all writers then record one constant c: the count must end at exactly c0 + number of inc calls, never decrease,
+//! and every average (probed or final) must be the weighted mean (c0*a0 + k*c)/(c0 + k) for the probed count c0 + k.
 
 use crate::common::{draw_strategy, file_violation, run_loop, Acc, Args};
 use crate::json::J;
@@ -18,14 +22,23 @@ use std::sync::{atomic::{AtomicBool, AtomicU64, Ordering::SeqCst}, Arc, Mutex};
 pub enum Mode { Single, Tickets, Constant(i32) }
 
 #[derive(Clone, Debug)]
-pub struct Cfg { pub mode: Mode, pub writers: usize, pub per_writer: u32, pub readers: usize }
-impl Cfg { pub fn json(&self) -> J { J::obj().with("mode", J::s(format!("{:?}", self.mode))).with("writers", J::i(self.writers as i64)).with("measurements_per_writer", J::i(self.per_writer as i64)).with("readers", J::i(self.readers as i64)) } }
+pub struct Cfg { pub mode: Mode, pub writers: usize, pub per_writer: u32, pub readers: usize, /** (count, average) the metric starts from */ pub origin: Option<(u32, i32)> }
+impl Cfg { pub fn json(&self) -> J { J::obj().with("mode", J::s(format!("{:?}", self.mode))).with("writers", J::i(self.writers as i64)).with("measurements_per_writer", J::i(self.per_writer as i64)).with("readers", J::i(self.readers as i64))
+    .with("count_origin", match self.origin { Some((c, a)) => J::s(format!("count {c} (2^24{:+}, 2^31{:+}), average {a}", c as i64 - (1 << 24), c as i64 - (1i64 << 31))), None => J::s("0") }) } }
 
 const TOL: f64 = 2e-3;
 fn close(a: f64, b: f64) -> bool { (a - b).abs() <= TOL * b.abs().max(1.0) }
 
 pub fn one_run(cfg: &Cfg, rc: &RunCfg, acc: &mut Acc) -> (Option<J>, u64, bool) {
     let ex = StreamExecutor::<0>::new("rmv-c19");
+    let (c0, a0) = cfg.origin.map(|(c, a)| (c as u64, a as f64)).unwrap_or((0, 0.0));
+    if let Some((c, a)) = cfg.origin {
+        // the metric is one 64-bit atomic cell: count in the low half, the f32 average in the high half (what `probe()` decodes)
+        let cell = &ex.ok_events_avg_future_duration as *const _ as *const AtomicU64;
+        unsafe { (*cell).store((c as u64) | (((a as f32).to_bits() as u64) << 32), SeqCst) };
+        let (pc, pa) = ex.ok_events_avg_future_duration.probe();
+        assert!(pc == c && pa == a as f32, "harness: the count origin was not installed as probe() decodes it");
+    }
     let tickets = Arc::new(AtomicU64::new(0));
     let writers_done = Arc::new(AtomicU64::new(0));
     let stop = Arc::new(AtomicBool::new(false));
@@ -57,13 +70,16 @@ pub fn one_run(cfg: &Cfg, rc: &RunCfg, acc: &mut Acc) -> (Option<J>, u64, bool) 
                 let mut p = |a: &str, s: String| { let mut v = probs.lock().unwrap(); if v.len() < 8 { v.push((a.into(), s)) } };
                 if m < last { p("count_decreased", format!("a reader saw the count go from {last} to {m}")) }
                 last = m;
-                if m as u64 > t_after { p("count_ahead", format!("count {m} with only {t_after} measurements started")) }
+                if (m as u64) < c0 { p("count_decreased", format!("a reader saw the count {m}, below the {c0} it started from")) }
+                if m as u64 > c0 + t_after { p("count_ahead", format!("count {m} with only {c0} + {t_after} measurements started")) }
                 let _ = t_before;
                 if m > 0 {
                     let (m64, a) = (m as f64, avg as f64);
                     match cfg2.mode {
                         Mode::Single => if !close(a, m64) { p("inconsistent_pair", format!("probe returned count {m} with average {avg}: after {m} updates (values 1,3,5,...) the mean is exactly {m}")) },
                         Mode::Tickets => { let hi = 2.0 * t_after as f64 - m64; if a < m64 * (1.0 - TOL) - 1e-3 || a > hi * (1.0 + TOL) + 1e-3 { p("inconsistent_pair", format!("probe returned count {m} with average {avg}: no {m} of the {t_after} values 1,3,..,{} have that mean (it lies in [{m}, {hi}])", 2 * t_after - 1)) } }
+                        Mode::Constant(c) if cfg2.origin.is_some() => { let k = m64 - c0 as f64; let want = (c0 as f64 * a0 + k * c as f64) / m64;
+                            if k >= 0.0 && (a - want).abs() > 5e-3 * want.abs().max(1.0) { p("inconsistent_pair", format!("probe returned count {m} with average {avg}: starting from count {c0} / average {a0}, {k} measurements of {c} give {want}")) } }
                         Mode::Constant(c) => if !close(a, c as f64) { p("inconsistent_pair", format!("probe returned count {m} with average {avg}, every measurement was {c}")) },
                     }
                 }
@@ -81,10 +97,10 @@ pub fn one_run(cfg: &Cfg, rc: &RunCfg, acc: &mut Acc) -> (Option<J>, u64, bool) 
     let total = cfg.writers as u64 * cfg.per_writer as u64;
     let (m, avg) = ex.ok_events_avg_future_duration.probe();
     if rep.outcome == Outcome::Done {
-        if m as u64 != total { problems.push(("lost_update".into(), format!("{total} measurements were recorded, the final count is {m}"))) }
+        if m as u64 != c0 + total { problems.push(("lost_update".into(), format!("{total} measurements were recorded{}, the final count is {m}", if c0 > 0 { format!(" on top of a count of {c0}") } else { String::new() }))) }
         else {
-            let mean = match cfg.mode { Mode::Single | Mode::Tickets => total as f64, Mode::Constant(c) => c as f64 };
-            if !close(avg as f64, mean) { problems.push(("wrong_average".into(), format!("the final average is {avg}, the arithmetic mean of the {total} recorded measurements is {mean}"))) }
+            let mean = match cfg.mode { Mode::Single | Mode::Tickets => total as f64, Mode::Constant(c) => (c0 as f64 * a0 + total as f64 * c as f64) / (c0 + total) as f64 };
+            if !(if c0 > 0 { (avg as f64 - mean).abs() <= 5e-3 * mean.abs().max(1.0) } else { close(avg as f64, mean) }) { problems.push(("wrong_average".into(), format!("the final average is {avg}, the arithmetic mean of the {total} recorded measurements is {mean}"))) }
         }
     }
     acc.count("measurements", total); acc.count("probes_checked", probes.load(SeqCst));
@@ -105,7 +121,23 @@ fn single(args: &Args, acc: &mut Acc, seed: u64, verbose: bool) {
     let mode = match rng.below(4) { 0 => Mode::Single, 1 | 2 => Mode::Tickets, _ => Mode::Constant(*rng.pick(&[-1, 3, 1000])) };
     let writers = if mode == Mode::Single { 1 } else { 2 + rng.below(2) as usize };
     let per_writer = if args.lane == Lane::Ser { 2 + rng.below(30) as u32 } else { 1000 + rng.below(40_000) as u32 };
-    let cfg = Cfg { mode, writers, per_writer, readers: 1 + rng.below(2) as usize };
+    let with_origin = matches!(mode, Mode::Constant(_)) || rng.chance(1, 4);
+    let writers = if with_origin && writers < 2 { 2 } else { writers };
+    let total = writers as u64 * per_writer as u64;
+    let origin = if with_origin {
+        let c = match rng.below(6) {
+            0 => (1u64 << 24) - rng.below(total + 2),                       // the run crosses 2^24
+            1 => (1u64 << 24) + rng.below(1000),
+            2 => (1u64 << 31) - rng.below(total + 2),
+            3 => (1u64 << 24) + rng.below((u32::MAX as u64 - (1 << 24)) - total - 1_000_000),
+            4 => u32::MAX as u64 - 2 - total - rng.below(1000),            // next to, but below, the documented reset at u32::MAX
+            _ => 1 + rng.below(1 << 24),
+        };
+        Some((c as u32, *rng.pick(&[-1, 3, 100, 1000])))
+    } else { None };
+    let mode = if origin.is_some() { Mode::Constant(match mode { Mode::Constant(c) => c, _ => *rng.pick(&[-1, 3, 200]) }) } else { mode };
+    if origin.is_some() { acc.count("runs_with_a_count_origin(2^24,2^31,below_u32_max,anywhere)", 1) }
+    let cfg = Cfg { mode, writers, per_writer, readers: 1 + rng.below(2) as usize, origin };
     let mut rc = match args.lane { Lane::Ser => RunCfg::ser(seed, draw_strategy(&mut rng, cfg.writers + cfg.readers, &[rv::AVG_BETWEEN_LOAD_AND_CAS], 100)), Lane::Free => RunCfg::free(seed, rng.below(3) as u8) };
     rc.trace = verbose && args.get("trace").is_some();
     let before = sched::SITE_HITS[rv::AVG_BETWEEN_LOAD_AND_CAS as usize].load(std::sync::atomic::Ordering::Relaxed);
